@@ -238,6 +238,21 @@ func cmdCheck(args []string) int {
 		}
 		if err := vc.translate(); err != nil {
 			run.shapeMismatch(fc, qn, err.Error())
+			// salvage: the contract as a whole no longer binds, but the function's safety obligations do not need the
+			// call-site clauses. Re-translate skipping the call-site clauses that cannot be bound and keep only the claimed
+			// safety obligations (loop invariants and postconditions must still bind, otherwise nothing is salvaged).
+			vc2 := newFnVC(w, fn, "full")
+			vc2.lenient = true
+			if err2 := vc2.translate(); err2 == nil {
+				n := 0
+				for _, o := range vc2.obls {
+					if o.Kind == "safety" && claimed(fc, o) {
+						obls = append(obls, o)
+						n++
+					}
+				}
+				run.notes = append(run.notes, fmt.Sprintf("%s: contract does not bind (%s); %d safety obligations salvaged with %d call-site clause(s) skipped", qn, err.Error(), n, len(vc2.skipped)))
+			}
 			continue
 		}
 		// every contracted loop must exist
